@@ -66,25 +66,25 @@ type Clk struct {
 
 // Event is one line of the trace.
 type Event struct {
-	Ev       string    `json:"ev"`
-	Sess     int       `json:"sess"`
-	R        string    `json:"r"`
-	B        int       `json:"b"`
-	Runs     []RunSpec `json:"runs"`
-	Loaders  bool      `json:"loaders"`
-	New      []*Commit `json:"new"`
-	Ref      []int     `json:"ref"`
-	M        string    `json:"m"`
+	Ev       string           `json:"ev"`
+	Sess     int              `json:"sess"`
+	R        string           `json:"r"`
+	B        int              `json:"b"`
+	Runs     []RunSpec        `json:"runs"`
+	Loaders  bool             `json:"loaders"`
+	New      []*Commit        `json:"new"`
+	Ref      []int            `json:"ref"`
+	M        string           `json:"m"`
 	Trk      map[string][]int `json:"trk"` // per remote
 	Hub      map[string][]int `json:"hub"` // per remote
-	Clk      Clk       `json:"clk"`
-	Ok       bool      `json:"ok"`
-	Status   string    `json:"status"`
-	Returned []int     `json:"returned"`
-	Snap     string    `json:"snap"`
-	Err      string    `json:"err"`
-	Final    bool      `json:"final"`
-	Empty    bool      `json:"empty"`
+	Clk      Clk              `json:"clk"`
+	Ok       bool             `json:"ok"`
+	Status   string           `json:"status"`
+	Returned []int            `json:"returned"`
+	Snap     string           `json:"snap"`
+	Err      string           `json:"err"`
+	Final    bool             `json:"final"`
+	Empty    bool             `json:"empty"`
 }
 
 const NBug = 3 // width of the ref vectors in the trace (the trace specification uses the same constant)
@@ -103,8 +103,8 @@ type World struct {
 	reps     map[string]*replica
 	order    []string
 	hubs     map[string]*repository.GoGitRepo // by remote name
-	authors  map[string]*identity.Identity // by model name, as created on the first replica
-	authorOf map[string]string             // identity id -> model name
+	authors  map[string]*identity.Identity    // by model name, as created on the first replica
+	authorOf map[string]string                // identity id -> model name
 
 	commitNo map[repository.Hash]int
 	commits  []*Commit
